@@ -2,6 +2,11 @@
 import re
 
 T = "RsslVerif.Thm.C02."
+TS = "RsslVerif.Thm.C02Sem."
+SEM_THEOREMS = ["msl_exporter_shape_as_modelled", "msl_op_table_is_identity", "msl_literal_arms_same_as_hlsl", "msl_genLiteral_eq",
+                "gen_sem_expr", "gen_sem_expr_plain", "gen_sem_args", "gen_sem_stmt", "gen_sem_stmts", "gen_sem_func",
+                "trampoline_copy_semantics", "gen_sem_program", "ir_frame", "gen_sem_signatures",
+                "int_min_literal_changes_meaning", "literal_arithmetic_changes_meaning", "inout_copy_in_order_changes_meaning"]
 
 POSITIONS = ["xs", "vi", "ai", "bl", "ic", "ib", "ec", "et", "ee", "fi", "fd", "fc", "fa", "fb", "wc", "wb", "db", "dc",
              "sx", "sb", "rt", "tc", "tt", "tf", "sq", "sw", "ct", "si", "ia", "cs", "op", "wr"]
@@ -11,6 +16,9 @@ CLASSES = ["S@plain", "G@array", "S@struct", "E@cbuffer", "Eo@texture", "E@texar
 def nontrivial(req, obs):
     # at least two calls between generated functions and one function that receives an implicit parameter
     f = req.split("\t")
+    if f[0] == "C02.gen":
+        # semantic stream: a supported function whose tree has a statement beyond a single return
+        return obs.startswith("ast ") and obs.count("(") > 12
     if f[0] != "C02.thread" or len(f) < 4:
         return obs.startswith("defs:")
     calls = len(re.findall(r"\.c\d+", f[2]))
@@ -18,10 +26,16 @@ def nontrivial(req, obs):
 
 
 def finding_key(req, obs, detail):
+    if req.startswith("C02.gen\t") and not obs and not detail:
+        # probe of vlib.shrink: failures of the semantic stream are keyed by their input, so a smaller failing input is welcome
+        return req
     d = (detail or "")[5:]
     d = re.sub(r":\d+:", ":", d)          # panic line numbers move with unrelated edits
     d = re.sub(r"panic \S*?((?:msl|ir|typer|parser|formatter|preprocess|text|ast|hlsl)/src/)", r"panic \1", d)
     first = d.split(" ## ")[0]
+    if first.startswith("class:"):
+        # semantic stream: a difference attributed to one of the described readings (see notes/C02.md) is keyed by its class
+        return first
     return f"{req} :: {first}"
 
 
@@ -36,7 +50,28 @@ def _show(f, gs, fs, entry):
     return "\t".join([f[0], ";".join(gs) or "-", ";".join(":".join(x) for x in fs) or "-", entry])
 
 
+def _shrink_gen(req):
+    f = req.split("\t")
+    if len(f) < 4:
+        return
+    src, fn, vecs = f[1], f[2], f[3]
+    # one argument vector
+    vs = vecs.split(";")
+    if len(vs) > 1:
+        for v in vs:
+            yield "\t".join(["C02.gen", src, fn, v, "-", "-"])
+    # drop one source line (statements of this generator are one per line; a candidate that no longer compiles is a SKIP)
+    lines = src.split("\\n")
+    for k in range(len(lines)):
+        if lines[k].strip() in ("", "{", "}") or lines[k].lstrip().startswith(("static ", "return ")) or "(" in lines[k] and ")" in lines[k] and lines[k].rstrip().endswith(")") and not lines[k].startswith(" "):
+            continue
+        yield "\t".join(["C02.gen", "\\n".join(lines[:k] + lines[k + 1:]), fn, vecs, "-", "-"])
+
+
 def shrink(req):
+    if req.startswith("C02.gen\t"):
+        yield from _shrink_gen(req)
+        return
     if not req.startswith("C02.thread\t") or len(req.split("\t")) != 4:
         return
     f, gs, fs = _parse(req)
@@ -86,10 +121,29 @@ def search(ctx):
     return out
 
 
+def custom(ctx):
+    """the standard run, plus a statistic: for how many programs of the semantic stream do the hypotheses of the
+    statement / program theorems (Spec/SemMslWT) hold"""
+    ctx.standard_run()
+    gen = sorted(r for r in ctx.distinct if r.startswith("C02.gen\t") and len(r.split("\t")) == 6 and r.split("\t")[4] != "-")
+    if gen:
+        from collections import Counter
+        ans = ctx.run_model(["C02.wt" + r[len("C02.gen"):] for r in gen])
+        ctx.extra["semantic_theorem_hypotheses_hold"] = dict(Counter(ans))
+        # consistency of the whole arrangement: where the oracle sees the real exporter differ from the IR, the hypotheses
+        # of the theorems must fail (the theorems say there is no difference where they hold)
+        status = dict(zip(gen, ans))
+        bad = [r for r, o, d in ctx.oracle_failures if status.get(r) == "wt" and "is undefined" not in d]
+        ctx.extra["oracle_differences_inside_theorem_hypotheses"] = len(bad)
+        if bad:
+            ctx.broken.append("the oracle reports a difference on a program that satisfies the hypotheses of gen_sem_*: "
+                              + bad[0].split("\t")[1][:200])
+
+
 SPEC = {
     "id": "C02",
-    "gens": ["UsageTables"],
-    "lean_modules": ["RsslVerif.Thm.C02"],
+    "gens": ["UsageTables", "MslGenTables"],
+    "lean_modules": ["RsslVerif.Thm.C02", "RsslVerif.Thm.C02Sem"],
     "theorems": [T + n for n in [
         "tables_as_modelled", "all_positions_descended", "implicit_names_agree",
         "recurse_no_panic", "recurse_terminates", "measure_bounded_and_increasing", "close_is_reachability",
@@ -97,12 +151,13 @@ SPEC = {
         "requiredP_order_independent", "required_monotone", "args_align", "args_unchanged_without_implicit", "args_aligned_with_defaults",
         "threaded_exactly_partial", "calculateLocal_wf", "closeProgram_ok", "threaded_exactly_program_partial",
         "mentions_calculateLocal", "threaded_exactly",
-        "default_arguments_analysed", "global_initialisers_analysed"]],
+        "default_arguments_analysed", "global_initialisers_analysed"]] + [TS + n for n in SEM_THEOREMS],
     "harness": "c02",
     "nontrivial": nontrivial,
     "finding_key": finding_key,
     "shrink": shrink,
     "search": search,
+    "custom": custom,
     "rule": "requests = (globals with storage/const/sampler/object class, functions with parameter modes and a list of "
             "mentions/calls each placed at one of 32 syntactic positions, entry point); rendered to RSSL, type checked, "
             "run through rssl_msl::verif_generate_ast and the public GlobalUsageAnalysis::calculate; first every "
@@ -111,7 +166,15 @@ SPEC = {
             "the oracle checks on the emitted Metal syntax tree that every identifier is in scope, every call matches "
             "a definition with the threaded global at the same position on both sides, and a function receives a "
             "threaded global iff it (transitively) needs it, by reference; non-trivial = at least two calls and one "
-            "implicit parameter",
+            "implicit parameter. Semantic half (stream C02.gen): well-typed RSSL programs of the scalar subset "
+            "(generator of C01 without built-in calls) and programs built around aliasing calls (a static passed as "
+            "out/inout argument to a function that touches it, one variable for two out/inout parameters, an out argument "
+            "read or written by another argument) are serialised (typed IR of every function, names, types, static "
+            "initial values), run through rssl_msl::verif_generate_ast; observation = the emitted definitions of the "
+            "function (trampoline target, trampoline) + reference evaluation of the IR + evaluation of the emitted tree; "
+            "the model answers with its own tree, the Lean Ir.phi and the Lean Msl.phi (Spec/SemMsl) on its tree; the "
+            "oracle runs the emitted module under a C++/Metal evaluator with reference parameters and compares return "
+            "value, out/inout results and statics with the IR evaluation bit for bit on 4-6 argument vectors",
     "level_text": "Proof of the logic of implicit threading: the usage fixpoint loop (modelled with explicit key iteration "
                   "order, explicit unwrap failures and fuel) is proved for every table to terminate within |keys|^2+1 passes "
                   "without panicking, to compute exactly reachability through the local-use relation independently of the "
@@ -120,9 +183,20 @@ SPEC = {
                   "position between call sites and callee signatures, and to contain exactly the threaded-mode globals "
                   "reachable from the function. Which syntactic positions the analysis visits, the GlobalMode "
                   "classification, the derived order of implicit parameters and the parameter/argument names are "
-                  "re-extracted from the source on every run. The semantic half of C02 (expression/statement translation "
-                  "to Metal preserves values) is not modelled here: it is exercised only by the oracle on the emitted "
-                  "syntax tree, and is stated as not covered.",
+                  "re-extracted from the source on every run. Semantic half (Thm/C02Sem): for an executable model of "
+                  "generate_expression / generate_literal / generate_statement / generate_function_inner / the out-inout "
+                  "trampoline (Model/GenMsl, operator / literal / type-name tables and the text of every modelled arm "
+                  "re-extracted on every run: Gen.MslGenTables) it is proved, for every interpretation of the float / "
+                  "conversion / division primitives, every fuel and every call depth, that the C++/Metal reading of the "
+                  "emitted tree (Spec/SemMsl: int/long literal types, promotions, shift rule, by-value and thread-reference "
+                  "parameters, overloads by tag) equals the typed IR semantics of C01: gen_sem_expr, gen_sem_stmt(s), "
+                  "gen_sem_func (body-carrying definition with statics reachable only through the reference parameters), "
+                  "trampoline_copy_semantics (the emitted trampoline called with arbitrary, possibly aliasing, caller "
+                  "variables = copy-in, typed function, copy-out in parameter order) and gen_sem_program (Metal call = "
+                  "typed copy-in/copy-out call at every depth, under the semantic precondition that functions with out "
+                  "parameters do not depend on their entry value). Outside the side conditions the statement is false on the current code: "
+                  "negations with witnesses (INT_MIN / literal arithmetic typed long/int in Metal; inout copy-in after "
+                  "later arguments), both replayed on the real exporter as known findings.",
     "trusted_base": [
         "Lean 4.33 kernel; axioms propext / Classical.choice / Quot.sound only (audited by #print axioms)",
         "tools/gens/c02.py (UsageTables): match-arm/field inventory of gather_usage_*, regex shape facts about "
@@ -133,12 +207,42 @@ SPEC = {
         "Spec/Usage.lean: our reading of 'needs' (reachability through mentions and calls) and of which globals Metal "
         "cannot keep at file scope",
         "Rust: Vec::sort returns a sorted permutation; HashMap/HashSet = finite map/set with unspecified iteration order",
+        "tools/gens/c02.py (MslGenTables): arm tables of the Metal generate_intrinsic_op / generate_literal / "
+        "generate_scalar_type and exact-text facts about every modelled arm of generate_expression, generate_statement, "
+        "generate_scope_block, generate_for_init, generate_variable_definition, generate_user_call, "
+        "generate_function_param, generate_function_inner, generate_function_and_trampoline, "
+        "generate_function_out_trampoline_body (an edit of any of them flips a fact and msl_exporter_shape_as_modelled stops checking)",
+        "Spec/SemMsl.lean: our reading of Metal (C++14): an unsuffixed integer literal is int below 2^31, else a 64-bit long; "
+        "unsuffixed and f-suffixed floating literals are float; bool is promoted to int before arithmetic / bitwise / "
+        "relational operators; int,uint -> uint, anything with long -> long, anything with float -> float; a shift has the "
+        "promoted type of its left operand and takes the count modulo the width (Metal spec); int/uint arithmetic wraps; "
+        "integer division, float arithmetic and conversions are the shared abstract primitives; metal::fmod is the float "
+        "remainder the IR's % denotes; &&, ||, ?: short-circuit; arguments and operands are evaluated left to right; "
+        "T-name parameters by value, thread-T&-name parameters bind the argument variable's location; locals live at "
+        "fixed frame slots (flat store shared with C01: no recursion), the trampoline's `out` is reclaimed at return",
+        "the typed IR semantics Spec/Sem + Spec/SemStmt of C01 (shared, unchanged): in particular an out/inout argument is "
+        "copied in when the argument list reaches it, left to right",
+        "harness/src/c02/msleval.rs: an independent Rust implementation of the same Metal reading; the Lean Msl.phi and it "
+        "are compared on every generated case (0 disagreements), as are Lean Ir.phi and the Rust IR evaluator of C01",
     ],
     "assumptions": [
         "names: every global/function/parameter keeps a distinct Metal name (C15); the model works on indices",
         "'needs' counts default-argument expressions and global initialisers (reading agreed after fixes 2c8592f/1d760f5); "
         "threaded_exactly assumes every mention sits at a place gather_usage_* visits (AllSeen; all_positions_descended "
         "discharges it for the generator's 32 positions) and the type checker's guarantee that omitted arguments have defaults",
-        "expression/statement semantics of the emitted Metal (the gen_sem half of C02, shared with C01) is outside this model",
+        "semantic half, side conditions of the theorems (Spec/SemMslWT Ir.okM / wtStmtM): no IntLiteral/FloatLiteral constant "
+        "inside an expression, Int32(i32::MIN) only where the context converts it back to int (both: known finding "
+        "metal-integer-literal-typing); arithmetic / bitwise / relational operators and compound assignments on int, uint, "
+        "float operands (on bool operands C++ promotes to int: the values agree but the proof would need run-time types of "
+        "variables; covered by the oracle only); switch on int / uint; every out/inout argument is a variable outside the "
+        "callee's own slots and the in arguments after it are pure (else: known finding "
+        "inout-copy-in-after-later-arguments); no built-in function calls (Model/GenMsl answers unsupported)",
+        "semantic half, names and layout (AgreeM / AgreeL / AgreeT): emitted names denote the IR's entities and are pairwise "
+        "distinct within a frame incl. the trampoline's __p and out (C15); locals sit at the IR's variable ids, the "
+        "trampoline's copy __p at the id of parameter p, statics threaded as parameters are not in the frame",
+        "gen_sem_program assumes of each typed function that gets a trampoline (OutOK) that its result does not depend on "
+        "the entry value of an out parameter (the source writes it first: no definite-assignment analysis is formalised); "
+        "syntactically (SynOK) that no function mentions a trampoline's scratch slot and that a void function with a "
+        "trampoline has no `return e;`",
     ],
 }
